@@ -48,7 +48,7 @@ def printers(prog, fn):
         fw = spec_print.forwards_display(v)
         names = oracle.canonical_names(prog, v)
         if f == 'fmt':
-            for sp in SPECS:
+            for sp in SPECS + ['{:%d}' % len(names[0].encode('utf-8'))]:
                 if fw:
                     k = spec_print.inner_kind(prog, v)
                     if k == 'cap':
